@@ -594,8 +594,62 @@ func frozenGuard(fn *ssa.Function, b *ssa.BasicBlock, roots []base, at ssa.Instr
 		}
 		return "closure created under a !frozen guard of the same object"
 	}
+	// a private helper (ht.endIteration()) every call of which - plain or deferred - sits under the guard
+	if frozenGuardDepth < 2 && fn.Object() != nil && !fn.Object().Exported() && fn.Name() != "Done" {
+		var idxs []int
+		for _, r := range roots {
+			prm, ok := r.v.(*ssa.Parameter)
+			if !ok || prm.Parent() != fn {
+				return ""
+			}
+			for i, q := range fn.Params {
+				if q == prm {
+					idxs = append(idxs, i)
+				}
+			}
+		}
+		if len(idxs) == 0 {
+			return ""
+		}
+		n := 0
+		okAll := true
+		for _, g := range curProg.Funcs {
+			eachInstr(g, func(in ssa.Instruction) {
+				for _, op := range in.Operands(nil) {
+					if f, ok := (*op).(*ssa.Function); ok && f == fn {
+						if ci, ok := in.(ssa.CallInstruction); !ok || ci.Common().Value != f {
+							okAll = false // address taken
+						}
+					}
+				}
+				ci, ok := in.(ssa.CallInstruction)
+				if !ok || ci.Common().StaticCallee() != fn {
+					return
+				}
+				n++
+				for _, i := range idxs {
+					if i >= len(ci.Common().Args) {
+						okAll = false
+						continue
+					}
+					arg := resolveBases(g, traceAddr(ci.Common().Args[i]).bases)
+					frozenGuardDepth++
+					guarded := frozenGuard(g, in.Block(), arg, in) != ""
+					frozenGuardDepth--
+					if !guarded {
+						okAll = false
+					}
+				}
+			})
+		}
+		if n > 0 && okAll {
+			return fmt.Sprintf("private helper %s: all %d call site(s) are under a !frozen guard of the same object", fnName(fn), n)
+		}
+	}
 	return ""
 }
+
+var frozenGuardDepth = 0
 
 func init() {
 	register("W1", "write census: every store into list/dict/set/hashtable/struct/function/cell/module/program storage is on a fresh object (G0), dominated by a successful checkMutable on the same object (G1), a frozen/itercount store under a !frozen guard (G2), in a verified private helper (G3) or a named exception (G4)", 120, ruleW1)
